@@ -73,9 +73,18 @@ class BNTail(torch.nn.Module):
 				dtype=torch.float64) + 0.5)
 			self.bn.weight.copy_(torch.randn(n_out, generator=g,
 				dtype=torch.float64))
+		# a non-linearity and a mixing layer after the normalisation (the
+		# batch-sum of a batch-normalised feature is constant, so without
+		# them train-mode statistics would give zero gradients everywhere)
+		self.act = torch.nn.Tanh()
+		self.mix_layer = torch.nn.Linear(n_out, n_out, dtype=torch.float64)
+		with torch.no_grad():
+			for p_ in self.mix_layer.parameters():
+				p_.copy_(torch.randn(p_.shape, generator=g,
+					dtype=torch.float64))
 
 	def forward(self, X, *args):
-		return self.bn(self.body(X, *args))
+		return self.mix_layer(self.act(self.bn(self.body(X, *args))))
 
 	def mix(self):
 		self.eval()
